@@ -349,7 +349,8 @@ def c02(tier, seed):
                             covers={"reached": "SATISFIED", "last arm": "SATISFIED"},
                             what="%s n=%d: one step of each of the 28 operator forms from arbitrary well-formed operands yields a well-formed table" % (tname, n)))
             out.append(spec("verif_c02", "c02.rs", "c02_step_transforms", "c02_step_transforms_%s" % fam, [fam], 8 * T(n) + 2,
-                            tier=tr, n=n, fam=fam, mem=mem_for(n), timeout=900 if n <= 8 else 3000,
+                            tier=tr, n=n, fam=fam, mem=mem_for(n, 1.5), timeout=900 if n <= 8 else 3000, optional=(n >= 11),
+                            mem_limit_gb=14 if n <= 10 else 30,
                             covers={"reached": "SATISFIED", "set_value arm": "SATISFIED"},
                             what="%s n=%d: set_bit/unset_bit/set_value/flip/swap/swap_adjacent (+in-place)/cofactors/from_cofactors from arbitrary well-formed tables and symbolic in-range arguments keep well-formedness; set_value changes exactly one assignment" % (tname, n)))
             out.append(spec("verif_c02", "c02.rs", "c02_step_ctors", "c02_step_ctors_%s" % fam, [fam], max(8 * T(n), 8) + 2,
@@ -465,6 +466,8 @@ def c09_parse_specs(kinds=("s", "d"), nmax_quick=6, nmax=7):
 
 
 def c09(tier, seed):
+    # _c09_order_specs() (multi-word print order with small words) was measured infeasible: core::fmt padding
+    # alone exhausts 30 GB / 50 min at n = 7 even when every word is < 16; printing for n >= 6 stays outside the claim
     out = c09_parse_specs()
     for kind in ("s", "d"):
         tname = "LutN" if kind == "s" else "Lut"
@@ -829,6 +832,19 @@ def c04_extra(scratch, tier, seed, log):
 
 def c05(tier, seed):
     out = c04_e2e("C05") + c04_stubbed("C05")
+    return out
+
+
+def _c09_order_specs():
+    out = []
+    for fam, n in (("s7", 7), ("d7", 7), ("s8", 8)):
+        for hexa in (True, False):
+            out.append(spec("verif_c09", "c09.rs", "c09_print_order", "c09_print_order_%s_%s" % ("hex" if hexa else "bin", fam),
+                            [fam, "true" if hexa else "false"], 140,
+                            tier="quick", n=n, fam=fam, mem=4, mem_limit_gb=30, timeout=3000,
+                            covers={"reached": "SATISFIED", "first and last word differ": "SATISFIED"},
+                            what="%s on %s n=%d with every word a small symbolic value (< %d): fixed width, the digit of word k sits at the end of chunk T-1-k (most significant word first), everything else is '0'" % (
+                                "to_hex_string" if hexa else "to_bin_string", "LutN" if fam[0] == "s" else "Lut", n, 16 if hexa else 2)))
     return out
 
 
